@@ -2,7 +2,7 @@
 # usage: build_engine.sh <engine>   — extract coq/extract/Extract_<engine>.v and build bin/drv_<engine>
 set -e
 eng=$1
-V=/verif
+V=$(cd "$(dirname "$0")" && pwd)
 B=$V/build/$eng
 mkdir -p $B $V/bin
 cd $B
